@@ -19,8 +19,9 @@ PC = dict(P, additionalProperties=False)
 PD = {"type": "object", "properties": {"a": {"type": "integer", "default": 7}, "b": STR}}
 PR = {"type": "object", "properties": {"foo-bar": INT}, "required": ["foo-bar"]}
 PF = {"type": "object", "properties": {"x": INT}, "required": ["x"], "additionalProperties": STR}
+PFR = {"type": "object", "properties": {"foo-bar": INT, "maxAttempts": INT, "type": STR}, "required": ["foo-bar"], "additionalProperties": {"type": "boolean"}}
 REC = {"type": "object", "properties": {"r": {"$ref": "#/definitions/Rec"}}}
-DEFS = {"P": P, "PC": PC, "PD": PD, "PR": PR, "PF": PF, "Rec": REC,
+DEFS = {"P": P, "PC": PC, "PD": PD, "PR": PR, "PF": PF, "PFR": PFR, "Rec": REC,
         "Ext": {"oneOf": [{"type": "string", "enum": ["U"]}, {"type": "object", "properties": {"N": INT}, "required": ["N"], "additionalProperties": False},
                           {"type": "object", "properties": {"S": {"type": "object", "properties": {"x": INT}, "required": ["x"]}}, "required": ["S"], "additionalProperties": False}]},
         "Int": {"oneOf": [{"type": "object", "properties": {"t": {"type": "string", "enum": ["A"]}, "x": INT, "y": STR}, "required": ["t", "x"]},
@@ -67,6 +68,10 @@ KINDS = {
     "struct_closed": (ref("PC"), [{"x": 1}], [{"x": 1, "zz": 0}], False),
     "struct_nested_defaults": (ref("PD"), [{"b": "s"}, {}, {"a": 1}], [{"a": "s"}], False),
     "struct_renamed": (ref("PR"), [{"foo-bar": 1}], [{"foo_bar": 1}], False),
+    # renamed members (JSON name != field identifier) next to a flattened typed map: the keys of the default have to be told apart by JSON name
+    "struct_flat_renamed": (ref("PFR"), [{"foo-bar": 1}, {"foo-bar": 1, "maxAttempts": 3, "type": "t", "jitter": True}, {"foo-bar": 2, "k": False}],
+                            [{"foo-bar": 1, "k": 2}, {"maxAttempts": 3}], False),
+    "struct_flat_renamed_inline": (dict(PFR), [{"foo-bar": 1, "maxAttempts": 3, "jitter": True}], [{"foo-bar": 1, "k": "s"}], False),
     "struct_flat": (ref("PF"), [{"x": 1}, {"x": 1, "k": "v"}], [{"x": 1, "k": 2}], False),
     "struct_inline_defaults": ({"type": "object", "properties": {"a": {"type": "integer", "default": 7}, "b": {"type": "boolean", "default": True},
                                                                 "u": {"type": "integer", "format": "uint8", "minimum": 0, "default": 9}}},
@@ -107,7 +112,7 @@ KINDS = {
     "date": ({"type": "string", "format": "date"}, ["2020-02-29"], [], True),
 }
 QUICK_KINDS = ["bool", "u8", "i64", "nz32", "f64", "string", "str_max2", "str_enum", "opt_scalar", "opt_struct", "vec", "set", "map_int", "map_any",
-               "tuple1", "tuple2", "struct", "struct_closed", "struct_renamed", "alias", "struct_req_nullable", "struct_nested_defaults", "struct_inline_defaults", "enum_inline_defaults", "struct_flat", "enum_ext", "enum_int", "enum_adj", "enum_unt", "enum_ext_tuple", "enum_adj_tuple", "enum_unt_struct", "deny_list", "str_pattern",
+               "tuple1", "tuple2", "struct", "struct_closed", "struct_renamed", "alias", "struct_req_nullable", "struct_nested_defaults", "struct_inline_defaults", "enum_inline_defaults", "struct_flat", "struct_flat_renamed", "struct_flat_renamed_inline", "enum_ext", "enum_int", "enum_adj", "enum_unt", "enum_ext_tuple", "enum_adj_tuple", "enum_unt_struct", "deny_list", "str_pattern",
                "typed_enum", "boxed", "unit", "uuid"]
 
 
